@@ -434,7 +434,7 @@ def run(ctx):
     for dom in c06.DOMS:
         for leaf in G.leaves(dom) + [t() for t in G.combos(dom, lambda d: G.leaves(d)[3 % len(G.leaves(d))],
                                                            ctx.sub_rng("c07", dom), 1)]:
-            vals = G.domain_values(dom, leaf) if dom != "warncall" else G.values_of("warncall")
+            vals = G.domain_values(dom, leaf)
             for raw in vals:
                 if ctx.mine():
                     n += 1
@@ -448,7 +448,7 @@ def run(ctx):
             break
         dom = rng.choice(c06.DOMS)
         e = G.random_expr(rng, dom, rng.randint(1, 3))
-        vals = G.domain_values(dom, e) if dom != "warncall" else G.values_of("warncall")
+        vals = G.domain_values(dom, e)
         if not vals:
             continue
         ctx.execute("describe", {"expr": e, "value": rng.choice(vals), "message": rng.choice(MESSAGES)})
